@@ -13,5 +13,11 @@ func H_C20_lev(v *V) {
 	v.Reach("done")
 	v.Assert(d == r, "distance equals the true Levenshtein distance over characters")
 	v.Assert(d == levenshtein(t, s), "distance is symmetric")
-	v.Assert((d == 0) == (s == t), "distance is zero exactly for equal strings")
+	// "equal" is equality of the character sequences (for valid UTF-8 this is
+	// string equality; distinct invalid bytes all read as U+FFFD).
+	v.Assert((d == 0) == refSameRunes(s, t), "distance is zero exactly for equal strings")
+}
+
+func init() {
+	vHarnesses["H_C20_lev"] = H_C20_lev
 }
